@@ -16,6 +16,7 @@ import Mfi.Lemmas.ResL
 import Mfi.Lemmas.BankL
 import Mfi.Lemmas.SkelL
 import Mfi.Lemmas.AccL
+import Mfi.Lemmas.ConstL
 
 namespace Mfi.Props.C19
 open Mfi Mfi.Fx Mfi.Bank Mfi.Gen
@@ -224,7 +225,7 @@ theorem calc_zero {T amount d R e em : Int} (he : exp10 d = some e) (hpos : 0 < 
 theorem exp10_pos {d e : Int} (h : exp10 d = some e) : 0 < e := by
   unfold exp10 at h
   split at h
-  · have : ∀ x ∈ EXP_10_I80F48, 0 < x := by decide
+  · have : ∀ x ∈ POW10FX, 0 < x := by decide
     exact this e (List.mem_of_getElem? h)
   · cases h
 
@@ -621,5 +622,10 @@ theorem emissions_payout_after_settle :
     settle_emissions = [.find, .claimEmissions] := by decide
 
 end tables
+
+/-- emissions are computed on the position's amount divided by the row chosen by the mint decimals: that table is exactly the powers of ten 10^0 .. 10^23 as I80F48 (regenerated from the real
+    constants on every run; the model computes its own powers of ten and is diffed against the real functions across
+    ALL 24 decimals) -/
+theorem scaling_table_is_powers_of_ten : Mfi.Gen.EXP_10_I80F48 = Mfi.Fx.POW10FX := Mfi.ConstL.exp10_table_exact
 
 end Mfi.Props.C19
